@@ -739,3 +739,37 @@ fn smoke_one<S: Sut>(n: u64, c: Cfg) -> CampStats {
     }
     st
 }
+
+
+/// dev helper: markdown table of the jobs behind every property (kept in DESIGN §12.6)
+pub fn print_jobs() {
+    let names = [
+        (mon::SPEC, "model"), (mon::CONV, "equal-K table"), (mon::EQ, "=="), (mon::RESIDUE, "residue"), (mon::DUP, "dup"), (mon::STALE, "stale"),
+        (mon::CTX, "contexts"), (mon::VOP, "validate_op"), (mon::VMERGE, "validate_merge"), (mon::SERDE, "serde"), (mon::SEQ, "Vec model"),
+        (mon::ORDER, "global order"), (mon::MONO, "monotone"), (mon::STRUCT, "structural"), (mon::LAWS, "merge laws"), (mon::HYBRID, "merge vs ops"),
+    ];
+    println!("| property | instantiations | job | replicas(+observers) x steps | authoring discipline | monitors | histories quick |");
+    println!("|---|---|---|---|---|---|---|");
+    for i in 1..=20 {
+        let p = format!("C{i:02}");
+        let jobs = jobs_for(&p, false);
+        // group identical (label, cfg shape) over instantiations
+        let mut groups: Vec<(String, Vec<&str>, &Job)> = vec![];
+        for j in &jobs {
+            let key = format!("{}|{}|{}|{}|{:?}|{}|{}", j.label, j.cfg.nrep, j.cfg.nobs, j.cfg.nsteps, j.cfg.delivery, j.cfg.mon, j.n);
+            match groups.iter_mut().find(|g| g.0 == key) {
+                Some(g) => g.1.push(j.sut),
+                None => groups.push((key, vec![j.sut], j)),
+            }
+        }
+        for (_, suts, j) in groups {
+            let mons: Vec<&str> = names.iter().filter(|(m, _)| j.cfg.mon & m != 0).map(|(_, n)| *n).collect();
+            let sweep = match j.sweep {
+                Some(s) => format!("; sweep {:?} x{}{}{}", s.disc, s.next, if s.exhaustive_upto > 0 { format!(", all orders if <= {} ops", s.exhaustive_upto) } else { String::new() }, if s.merges { ", observers merge" } else { "" }),
+                None => String::new(),
+            };
+            let extra = format!("{}{}{}{}{}", if j.cfg.merges { " merges" } else { "" }, if j.cfg.dups { " dups" } else { "" }, if j.cfg.stale_merges { " stale-merges" } else { "" }, if j.cfg.shadows { " shadows" } else { "" }, if j.cfg.anyk { " every-K" } else { "" });
+            println!("| {p} | {} | {}{} | {}(+{}) x {} | {:?}{} | {} | {} |", suts.join(" "), j.label, sweep, j.cfg.nrep, j.cfg.nobs, if j.cfg.policy == 254 { "template".to_string() } else { j.cfg.nsteps.to_string() }, j.cfg.delivery, extra, mons.join(", "), j.n);
+        }
+    }
+}
